@@ -10,6 +10,10 @@ E1 `codec`    nodes (derived and synthetic boundary fields) x all 20 SLIP-132 pr
               exact, constructor direction, raw_parse(network=...), stale-memo probe, children of parsed keys.
 E1 `blind`    blind_xpub(start xpub, start path, secret path) == reference key at the combined path
               from the root, start depths 0..4 x secret paths of depth 1..4 x notations x prefixes.
+E1 `badpaths` strings OUTSIDE the path grammar (signs, blanks, junk in the root component, numbers >= 2^31, doubled
+              markers, empty components) given to both traverse methods: refused, or the key of the only decimal reading.
+E1 `blindneg` blind_xpub with a starting path whose depth is not the xpub's depth (component removed / appended / "//").
+E1 `entry`    other entry points that take a path: from_mnemonic(path=), get_private_key, generate_p2wsh_key_record.
 E3 `toyN`     toy instantiation of pecc.py: every parent secret x chain codes x index alphabet.
 E3 `toypathsN` toy instantiation: every path of depth <= 3 over the alphabet x every notation.
 """
@@ -136,6 +140,53 @@ def check(res, fp, vc, got, want, what, okname, nontrivial=None, sample=None):
     return False
 
 
+def check_net(res, fp, vc, obj, net, okname):
+    """The network label of a derived / traversed key (and of its public half) is the one of the key it came from:
+    test, signet and regtest share their version bytes, so the strings cannot show a lost network."""
+    if isinstance(obj, Rejected) or obj is None:
+        return
+
+    def f():
+        d = {"net": obj.network}
+        if hasattr(obj, "pub"):
+            d["pub.net"] = obj.pub.network
+        return d
+
+    got = attempt(f)
+    want = {"net": net}
+    if isinstance(got, dict) and "pub.net" in got:
+        want["pub.net"] = net
+    if got == want:
+        res.ok(okname)
+    else:
+        res.violation(fp, vc, got, want, "a derived key does not carry the network of the key it was derived from")
+
+
+def lenient_read(s):
+    """The ONLY reading a path-like string can have when every component is read as the decimal integer it denotes
+    (Python's int() is the reader: blanks, a sign, '_' and non-ASCII decimal digits are lexical noise).  Returns the list
+    of 32-bit indexes or None when the string has no reading: root component not m/M, a component that is not an integer
+    with at most one trailing marker, a negative number, a marked number >= 2^31, an unmarked number >= 2^32.
+    An unmarked number in [2^31, 2^32) reads as that (hardened) index.  Superset of R.parse_path."""
+    parts = s.split("/")
+    if parts[0].strip() not in ("m", "M"):
+        return None
+    out = []
+    for comp in parts[1:]:
+        body = comp.strip()
+        hard = body[-1:] in R.MARKERS
+        if hard:
+            body = body[:-1]
+        try:
+            v = int(body, 10)
+        except ValueError:
+            return None
+        if v < 0 or (hard and v >= HARD) or v >= 2**32:
+            return None
+        out.append(v + HARD if hard else v)
+    return out
+
+
 # ---------------------------------------------------------------- E1 tree
 def gen_tree(tier, seed):
     seeds = seeds_for(tier, seed)
@@ -166,6 +217,16 @@ def gen_tree(tier, seed):
         net = "mainnet" if cls == "main" else "testnet"
         for parent in ([], [HARD + 48]):
             cases.append({"sn": sn, "seed": sb.hex(), "net": net, "parent": parent, "children": BOUNDARY, "slip132": letter})
+    # only ONE of priv_version / pub_version given: that side keeps the given bytes through every step, the other side
+    # has the network's default
+    for letter, cls, _pub, _prv in R.SLIP132:
+        net = "mainnet" if cls == "main" else "testnet"
+        for side in ("priv", "pub"):
+            for parent in ([], [HARD + 48]):
+                cases.append({"sn": sn, "seed": sb.hex(), "net": net, "parent": parent, "children": [0, HARD - 1, HARD], "slip132": letter, "side": side})
+    # every seed length of the statement (16..64 bytes) at the root
+    for n in range(16, 65):
+        cases.append({"sn": f"len{n}", "seed": filler(seed, "seedlen", n, n).hex(), "net": "mainnet", "parent": [], "children": [0, HARD]})
     return cases
 
 
@@ -177,9 +238,16 @@ def run_tree(case):
     vc = {"engine": "tree", "case": case}
     vprv, vpub = R.default_versions(net)
     kw = {}
+    fam = "tree"
     if case.get("slip132"):
-        vprv, vpub = R.version_bytes(case["slip132"] + "prv"), R.version_bytes(case["slip132"] + "pub")
-        kw = {"priv_version": vprv, "pub_version": vpub}
+        sprv, spub = R.version_bytes(case["slip132"] + "prv"), R.version_bytes(case["slip132"] + "pub")
+        if case.get("side") == "priv":
+            vprv, kw, fam = sprv, {"priv_version": sprv}, "tree/one-sided-version"
+        elif case.get("side") == "pub":
+            vpub, kw, fam = spub, {"pub_version": spub}, "tree/one-sided-version"
+        else:
+            vprv, vpub = sprv, spub
+            kw = {"priv_version": vprv, "pub_version": vpub}
     rroot = R.master(seed)
     rpar = R.derive_priv(rroot, parent) if rroot else None
     if rpar is None:
@@ -187,15 +255,15 @@ def run_tree(case):
         return res
     root = attempt(HDPrivateKey.from_seed, seed, network=net, **kw)
     if not parent:
-        if not check(res, f"C08/tree/master/len{len(seed)}-{net}", vc, obs_priv(root), ref_priv(rroot, vprv, vpub), "from_seed differs from BIP32 master key generation", "master==ref", ("master", case["sn"], net)):
+        if not check(res, f"C08/{fam}/master/len{len(seed)}-{net}", vc, obs_priv(root), ref_priv(rroot, vprv, vpub), "from_seed differs from BIP32 master key generation", "master==ref", ("master", case["sn"], net)):
             return res
     par, rn = root, rroot
     if isinstance(root, Rejected):
-        res.violation(f"C08/tree/master/len{len(seed)}-{net}/rejected", vc, repr(root), "master key", "from_seed refuses the seed")
+        res.violation(f"C08/{fam}/master/len{len(seed)}-{net}/rejected", vc, repr(root), "master key", "from_seed refuses the seed")
         return res
     for i in parent:  # the fingerprint names the first step that goes wrong, not the whole path
         par, rn = attempt(par.child, i), R.ckd_priv(rn, i)
-        if not check(res, f"C08/tree/priv-child/{idx_name(i)}", vc, obs_priv(par), ref_priv(rn, vprv, vpub), f"HDPrivateKey.child({idx_name(i)}) differs from reference CKDpriv (on the way to the parent)", "parent-step==ref"):
+        if not check(res, f"C08/{fam}/priv-child/{idx_name(i)}", vc, obs_priv(par), ref_priv(rn, vprv, vpub), f"HDPrivateKey.child({idx_name(i)}) differs from reference CKDpriv (on the way to the parent)", "parent-step==ref"):
             return res
     for i in case["children"]:
         key = (case["sn"], net, tuple(parent), i)
@@ -206,21 +274,24 @@ def run_tree(case):
             continue
         ch = attempt(par.child, i)
         och = obs_priv(ch)
-        okc = check(res, f"C08/tree/priv-child/{nm}", vc, och, ref_priv(rc, vprv, vpub), f"HDPrivateKey.child({nm}) differs from reference CKDpriv", "priv-child==ref", key, sample={"seed": case["sn"], "parent": parent, "index": i, "xprv": rc.ser(vprv, True)[:20] + "..."} if i == HARD - 1 else None)
+        okc = check(res, f"C08/{fam}/priv-child/{nm}", vc, och, ref_priv(rc, vprv, vpub), f"HDPrivateKey.child({nm}) differs from reference CKDpriv", "priv-child==ref", key, sample={"seed": case["sn"], "parent": parent, "index": i, "xprv": rc.ser(vprv, True)[:20] + "..."} if i == HARD - 1 else None)
+        if okc:
+            check_net(res, "C08/tree/network-lost/priv-child", vc, ch, net, "priv-child keeps network")
         pc = attempt(par.pub.child, i)
+        check_net(res, "C08/tree/network-lost/pub-child", vc, pc, net, "pub-child keeps network")
         if i >= HARD:
             if isinstance(pc, Rejected) or pc is None:
                 res.ok("hardened-from-public-refused", ("hard",) + key)
             else:
-                res.violation(f"C08/tree/pub-hardened-accepted/{nm}", vc, str(obs_pub(pc))[:300], "refusal", f"HDPublicKey.child({nm}) returned a key for a hardened index")
+                res.violation(f"C08/{fam}/pub-hardened-accepted/{nm}", vc, str(obs_pub(pc))[:300], "refusal", f"HDPublicKey.child({nm}) returned a key for a hardened index")
             continue
         opc = obs_pub(pc)
         rp = R.ckd_pub(rpar.neuter(), i)
         assert rp.same(rc.neuter())
-        check(res, f"C08/tree/pub-child/{nm}", vc, opc, ref_pub(rp, vpub), f"HDPublicKey.child({nm}) differs from reference CKDpub", "pub-child==ref", ("pub",) + key)
+        check(res, f"C08/{fam}/pub-child/{nm}", vc, opc, ref_pub(rp, vpub), f"HDPublicKey.child({nm}) differs from reference CKDpub", "pub-child==ref", ("pub",) + key)
         if okc:
             # the statement itself, impl against impl: private child then .pub == public child
-            check(res, f"C08/tree/priv-pub-mismatch/{nm}", vc, opc, obs_pub(ch.pub), "public derivation differs from the public half of the private derivation", "pub-child==priv-child.pub")
+            check(res, f"C08/{fam}/priv-pub-mismatch/{nm}", vc, opc, obs_pub(ch.pub), "public derivation differs from the public half of the private derivation", "pub-child==priv-child.pub")
     return res
 
 
@@ -264,12 +335,20 @@ def gen_paths(tier, seed):
             for d in range(4, 8):
                 add(sn, net, DEEP8[0][:d])
                 add(sn, net, DEEP8[2][:d])
+    # traverse from a key that is NOT the root: the key at STARTS[i] (built with child()) traverses a relative path
+    for si, start in enumerate(STARTS[1:], 1):
+        sn, net = ("r16", "signet") if si % 2 else ("r32", "mainnet")
+        rel = [[]] + [[i] for i in BOUNDARY] + [[HARD - 1, HARD + 1], [HARD + 1, 0, 2**32 - 1], [0, 1, HARD - 1]]
+        if tier == "thorough":
+            rel = [[]] + [list(p) for d in (1, 2) for p in itertools.product(BOUNDARY, repeat=d)] + [DEEP8[0][: 8 - len(start)], DEEP8[3][: 8 - len(start)]]
+        for pth in rel:
+            cases.append({"sn": sn, "seed": seeds[sn].hex(), "net": net, "path": list(pth), "styles": None if tier == "thorough" else [["m", "'"], ["M", "mix"]], "start": list(start)})
     return cases
 
 
 def run_paths(case, toy=None):
     """Shared by the secp256k1 engine (root from seed) and the toy engine (root given as k, c)."""
-    from buidl.hd import HDPrivateKey
+    from buidl.hd import HDPrivateKey, is_valid_bip32_path
 
     res = Res()
     path = case["path"]
@@ -289,6 +368,11 @@ def run_paths(case, toy=None):
     else:
         rroot = R.master(bytes.fromhex(case["seed"]))
         root = attempt(HDPrivateKey.from_seed, bytes.fromhex(case["seed"]), network=net)
+    if case.get("start"):  # the traversing key is the one at `start`, reached by child(); paths are relative to it
+        fpn = "paths/from-non-root"
+        rroot = R.derive_priv(rroot, case["start"]) if rroot else None
+        for i in case["start"]:
+            root = attempt(lambda: root.child(i))
     rnode = R.derive_priv(rroot, path) if rroot else None
     if rnode is None:
         res.skip("reference: a key on the path is invalid (zero key / IL >= n): outside the statement")
@@ -319,7 +403,11 @@ def run_paths(case, toy=None):
         st = f"prefix={pfx},marker={mk}"
         stp = f"prefix={pfx}"  # public paths carry no marker
         assert R.parse_path(s) == path
-        key = (ename, case.get("sn") or case.get("k"), case.get("c"), tuple(path), s)
+        key = (ename, case.get("sn") or case.get("k"), case.get("c"), tuple(case.get("start") or ()), tuple(path), s)
+        if attempt(is_valid_bip32_path, s) is True:
+            res.ok("is_valid_bip32_path(grammar string)")
+        else:
+            res.violation(f"C08/{fpn}/is_valid_bip32_path-refuses/{st}", vc, {"path": s}, True, "is_valid_bip32_path refuses a well-formed path (so blind_xpub / combine_bip32_paths refuse it too)")
         t = attempt(root.traverse, s)
         ot = obs_priv(t)
         if isinstance(ot, Rejected):
@@ -330,6 +418,7 @@ def run_paths(case, toy=None):
                 res.violation(f"C08/{fpn}/priv-traverse!=fold/{st}/{d}", vc, {"path": s, d: ot.get(d)}, {d: ofold.get(d)}, "traverse(path) differs from deriving the components one by one")
             else:
                 res.ok("priv-traverse==fold==ref", key if path else None, sample={"path": s, "xpub": want["xpub"][:16] + "..."} if len(path) == 2 and mk == "H" else None)
+                check_net(res, f"C08/{fpn}/network-lost/priv-traverse", vc, t, net, "priv-traverse keeps network")
         # public side
         tp = attempt(root.pub.traverse, s)
         if hardened:
@@ -347,6 +436,7 @@ def run_paths(case, toy=None):
                     res.violation(f"C08/{fpn}/pub-traverse-wrong/{stp}/{d}", vc, {"path": s, d: otp.get(d)}, {d: wantpub.get(d)}, "public traverse differs from the public half of the private traverse")
                 else:
                     res.ok("pub-traverse==priv-traverse.pub==ref", ("pub",) + key if path else None)
+                    check_net(res, f"C08/{fpn}/network-lost/pub-traverse", vc, tp, net, "pub-traverse keeps network")
     return res
 
 
@@ -461,7 +551,7 @@ def gen_codec(tier, seed):
 
 
 def run_codec(case):
-    from buidl.ecc import PrivateKey
+    from buidl.ecc import PrivateKey, S256Point
     from buidl.hd import HDPrivateKey, HDPublicKey
 
     res = Res()
@@ -504,6 +594,15 @@ def run_codec(case):
                 res.violation(f"C08/codec/xpub(version)/{vname}", vc, g2, node.ser(mate, False), "xpub(version=...) of a parsed private key is not the reference serialisation")
             else:
                 res.ok("xpub(version)==ref")
+            # explicit private version: the other 9 private prefixes in turn (rotating with the prefix), then the own one again
+            oprv = [t for t in table if t[2] and t[3] != v]
+            oth = oprv[(table.index((vname, cls, is_priv, v)) // 2) % len(oprv)]
+            g3 = attempt(o.xprv, version=oth[3])
+            back3 = attempt(o.xprv)
+            if g3 != node.ser(oth[3], True) or back3 != x:
+                res.violation(f"C08/codec/xprv(version)/{vname}", vc, [g3, back3], [node.ser(oth[3], True), x], "xprv(version=...) is not the reference serialisation under that version, or changes what xprv() returns afterwards")
+            else:
+                res.ok("xprv(version)==ref", ("xprvv", nm, vname, oth[0]))
             netw = attempt(lambda: o.network)
             if (netw == "mainnet") != (cls == "main"):
                 res.violation(f"C08/codec/network-class/{vname}", vc, netw, cls, "parsed key is attributed to the wrong network class")
@@ -569,6 +668,25 @@ def run_codec(case):
                 res.violation(f"C08/codec/raw_parse/{net}-{'prv' if is_priv else 'pub'}", vc, got, want, "raw_parse(stream, network) does not reproduce the key / network")
             else:
                 res.ok("raw_parse(network)", ("raw", nm, net, is_priv))
+    # raw_parse(stream, network) with the SLIP-132 versions: a test-class version keeps its bytes and takes the given
+    # test-class network; a main-class version keeps its bytes and is mainnet whatever is passed.  (test-class bytes with
+    # network="mainnet" is a contradiction in the input: not asserted.)
+    full = case["kind"] == "der" or nm == "base"
+    for ti, (vname, cls, is_priv, v) in enumerate(table):
+        if vname in ("tpub", "tprv"):
+            continue  # the test-class default versions x the three test-class networks: done above
+        nets = NETWORKS if full else [NETWORKS[(case.get("j", 0) + ti) % 4]]
+        for net in nets:
+            if cls == "test" and net == "mainnet":
+                continue
+            klass = HDPrivateKey if is_priv else HDPublicKey
+            o = attempt(klass.raw_parse, BytesIO(node.payload(v, is_priv)), network=net)
+            got = attempt(lambda: (o.network, o.xprv() if is_priv else o.xpub()))
+            want = ("mainnet" if cls == "main" else net, node.ser(v, is_priv))
+            if got != want:
+                res.violation(f"C08/codec/raw_parse-slip132/{cls}-class-{'prv' if is_priv else 'pub'}", vc, {"version": vname, "network": net, "got": got}, want, "raw_parse(stream, network) of a SLIP-132 versioned key does not keep the version bytes / network")
+            else:
+                res.ok("raw_parse(network) slip132", ("raw132", nm, vname, net))
     # constructor direction: default versions per network and explicit SLIP-132 pairs
     slip = [("mainnet" if cls == "main" else "testnet", letter + "prv", letter + "pub") for letter, cls, _, _ in R.SLIP132]
     if case["kind"] == "der" or nm == "base":
@@ -589,6 +707,27 @@ def run_codec(case):
 
         o = attempt(build)
         check(res, f"C08/codec/construct/{net}-{pn or 'default'}", vc, obs_priv(o), ref_priv(node, vprv, vpub), "constructed key serialises differently from the reference", "construct==ref", ("ctor", nm, net, pn))
+
+        # the public class built directly from its fields (not through HDPrivateKey / parse)
+        def build_pub():
+            return HDPublicKey(
+                point=S256Point.parse(node.sec()), chain_code=node.c, depth=node.depth, parent_fingerprint=node.pfp, child_number=node.num, network=net,
+                pub_version=R.version_bytes(qn) if qn else None,
+            )
+
+        op = attempt(build_pub)
+        if check(res, f"C08/codec/construct-pub/{net}-{qn or 'default'}", vc, obs_pub(op), ref_pub(node, vpub), "HDPublicKey built from its fields serialises differently from the reference", "construct-pub==ref", ("ctorpub", nm, net, qn)):
+            check_net(res, "C08/codec/construct-pub/network", vc, op, net, "construct-pub network")
+            if node.depth < 255:
+                rc = R.ckd_pub(node.neuter(), HARD - 1)
+                oc = attempt(op.child, HARD - 1)
+                check(res, "C08/codec/construct-pub/child", vc, obs_pub(oc), ref_pub(rc, vpub), "child of an HDPublicKey built from its fields differs from the reference", "construct-pub child==ref")
+                check_net(res, "C08/codec/construct-pub/network", vc, oc, net, "construct-pub child network")
+            hc = attempt(op.child, HARD)
+            if isinstance(hc, Rejected) or hc is None:
+                res.ok("hardened-from-constructed-public-refused")
+            else:
+                res.violation("C08/codec/construct-pub/hardened-accepted", vc, str(obs_pub(hc))[:200], "refusal", "hardened child derived from an HDPublicKey built from its fields")
     return res
 
 
@@ -631,6 +770,18 @@ def gen_blind(tier, seed):
     for vname, cls, is_priv, v in R.versions():
         if not is_priv:
             add("r32", vname, STARTS[2], [HARD - 1, 0])
+    # bounds: the empty secret path "m" (the starting key and path come back unchanged) for every start, a start at
+    # depth 8, secret paths of depth 8 and 31 (the most secure_secret_path hands out)
+    for si, start in enumerate(STARTS):
+        add(["r16", "r32", "r64", "f64", "z16"][si], ["xpub", "tpub", "Zpub", "Vpub", "xpub"][si], start, [], STYLES[si % len(STYLES)], "mM"[si % 2])
+    add("r64", "xpub", DEEP8[0], [], ("m", "h"))
+    add("r64", "ypub", DEEP8[0], [HARD - 1] * 8, ("M", "mix"))
+    add("r64", "upub", DEEP8[0], list(range(31)), ("m", "'"), "M")
+    add("r16", "xpub", [], [HARD - 1 - j for j in range(31)])
+    if tier == "thorough":
+        for d in (5, 6, 7):
+            add("r64", "xpub", DEEP8[0][:d], [0, HARD - 1] * 4, ("m", "H"))
+            add("r64", "Ypub", DEEP8[2][:d], [1] * d)
     # dedupe
     seen, out = set(), []
     for c in cases:
@@ -669,7 +820,7 @@ def run_blind(case):
     if isinstance(got, Rejected) or not isinstance(got, dict):
         # name the narrowest responsible input class: the plain notation first, then one notation change at a time
         plain_s, plain_x = R.format_path(start), R.format_path(secret)
-        big = idx_name(max(start + secret))
+        big = idx_name(max(start + secret, default=0))
         if isinstance(attempt(blind_xpub, start_xpub, plain_s, plain_x), (Rejected, type(None))):
             st = f"plain-notation/max-index={big}"
         elif xp != plain_x and isinstance(attempt(blind_xpub, start_xpub, plain_s, xp), (Rejected, type(None))):
@@ -693,6 +844,318 @@ def run_blind(case):
         res.violation("C08/blind/wrong-full-path" + ("" if isinstance(gp, str) and R.parse_path(gp) is not None else "/unparseable"), vc, gp, R.format_path(start + secret), "blinded_full_path is not the concatenation of the two paths")
     else:
         res.ok("full-path==concat")
+    return res
+
+
+# ---------------------------------------------------------------- E1 badpaths
+BAD_BODIES = ["0", "1", "2147483647", "2147483648", "4294967295", "4294967296", "-1", "-0", "-2147483648", "+1", " 1", "1 ", "1_0", "00", "01", "", "١", "0x1", "1.0", "1e0", "a"]
+BAD_MARKERS = ["", "'", "h", "H", "''", "hh", "'h"]
+BAD_ROOTS = ["mm", "m0", "m8", "mx", "M1", "m'", "mh", "", " m", "m ", "n", "x", "1"]
+BAD_TAILS = ["", "/0", "/1'", "/0/1", "/2147483647h/0"]
+
+
+def bad_class(s):
+    """Coarse class of the first feature that puts a string outside the grammar of R.parse_path."""
+    parts = s.split("/")
+    if parts[0] not in ("m", "M"):
+        return "root-component" if parts[0].strip() not in ("m", "M") else "blank-around-root"
+    for comp in parts[1:]:
+        if R.parse_path("m/" + comp) is not None:
+            continue
+        body = comp.strip()
+        hard = body[-1:] in R.MARKERS
+        if hard:
+            body = body[:-1]
+        try:
+            v = int(body, 10)
+        except ValueError:
+            return "not-an-integer"
+        if v < 0:
+            return "negative-number"
+        if hard and v >= HARD:
+            return "marked-number>=2^31"
+        if v >= 2**32:
+            return "number>=2^32"
+        if v >= HARD:
+            return "unmarked-number>=2^31"
+        return "lexical-noise"
+    return "in-grammar"
+
+
+def gen_badpaths(tier, seed):
+    seeds = dict(seeds_for(tier, seed))
+    comps = [b + m for b in BAD_BODIES for m in BAD_MARKERS]
+    groups = [("m/X", [f"m/{c}" for c in comps])]
+    groups.append(("m/1'/X", [f"m/1'/{c}" for c in comps]))
+    groups.append(("m/X/0", [f"m/{c}/0" for c in comps]))
+    groups.append(("ROOT/tail", [r + t for r in BAD_ROOTS for t in BAD_TAILS]))
+    if tier == "quick":
+        groups.append(("M/X", [f"M/{b}{m}" for b in BAD_BODIES for m in ("", "H")]))
+    if tier == "thorough":
+        groups.append(("M/X", [f"M/{c}" for c in comps]))
+        groups.append(("m/0/X", [f"m/0/{c}" for c in comps]))
+        groups.append(("m/X/1'", [f"m/{c}/1'" for c in comps]))
+        groups.append(("m/X/Y", [f"m/{a}/{b}" for a in comps[:: len(BAD_MARKERS)] + ["-1'", "0''"] for b in comps[:: len(BAD_MARKERS)] + ["-1'", "1h"]]))
+        groups.append(("ROOT/X", [f"{r}/{c}" for r in BAD_ROOTS for c in comps[:: len(BAD_MARKERS)]]))
+    starts = [("r16", "mainnet", [])] if tier == "quick" else [("r16", "mainnet", []), ("r33", "signet", [HARD + 48, 0])]
+    cases = []
+    for sn, net, start in starts:
+        for gname, strings in groups:
+            strings = [x for x in dict.fromkeys(strings) if R.parse_path(x) is None]
+            for j in range(0, len(strings), 21):
+                cases.append({"sn": sn, "seed": seeds[sn].hex(), "net": net, "start": start, "group": gname, "strings": strings[j : j + 21]})
+    return cases
+
+
+def run_badpaths(case):
+    from buidl.hd import HDPrivateKey, is_valid_bip32_path
+
+    res = Res()
+    net = case["net"]
+    vprv, vpub = R.default_versions(net)
+    rroot = R.derive_priv(R.master(bytes.fromhex(case["seed"])), case["start"])
+    if rroot is None:
+        res.skip("reference: invalid key")
+        return res
+    root = attempt(HDPrivateKey.from_seed, bytes.fromhex(case["seed"]), network=net)
+    for i in case["start"]:
+        root = attempt(lambda: root.child(i))
+    if isinstance(root, Rejected):
+        res.violation("C08/badpaths/root-rejected", {"engine": "badpaths", "case": case}, repr(root), "key", "cannot build the traversing key")
+        return res
+    memo = {}
+    for s in case["strings"]:
+        vc = {"engine": "badpaths", "case": dict(case, strings=[s])}
+        assert R.parse_path(s) is None
+        cl = bad_class(s)
+        reading = lenient_read(s)
+        rn = None
+        if reading is not None:
+            rn = memo.get(tuple(reading)) or R.derive_priv(rroot, reading)
+            memo[tuple(reading)] = rn
+            if rn is None:
+                res.skip("reference: invalid key on the path")
+                continue
+        key = (case["sn"], tuple(case["start"]), s)
+        # private side: refused, or the key of the only decimal reading
+        t = attempt(root.traverse, s)
+        if isinstance(t, Rejected) or t is None:
+            res.ok("priv: refused", ("p",) + key)
+        elif reading is None:
+            ot = obs_priv(t)
+            res.violation(f"C08/badpaths/priv-accepts-unreadable/{cl}", vc, {"path": s, "result": {k: ot.get(k) for k in ("num", "depth", "xprv")} if isinstance(ot, dict) else repr(ot)}, "refusal", "HDPrivateKey.traverse returns a key for a string that has no reading as a BIP32 path")
+        else:
+            d = diff(obs_priv(t), ref_priv(rn, vprv, vpub))
+            if d is None:
+                res.ok("priv: key of the decimal reading", ("p",) + key)
+            else:
+                res.violation(f"C08/badpaths/priv-wrong-key/{cl}/{d}", vc, {"path": s, "reading": reading}, "refusal or the key at the reading", "HDPrivateKey.traverse returns a key that is not the one the components denote")
+        # public side: refused whenever the reading has a hardened index
+        tp = attempt(root.pub.traverse, s)
+        if isinstance(tp, Rejected) or tp is None:
+            res.ok("pub: refused", ("q",) + key)
+        elif reading is None:
+            otp = obs_pub(tp)
+            res.violation(f"C08/badpaths/pub-accepts-unreadable/{cl}", vc, {"path": s, "result": {k: otp.get(k) for k in ("num", "depth", "xpub")} if isinstance(otp, dict) else repr(otp)}, "refusal", "HDPublicKey.traverse returns a key for a string that has no reading as a BIP32 path")
+        elif any(i >= HARD for i in reading):
+            res.violation(f"C08/badpaths/pub-hardened-accepted/{cl}", vc, {"path": s, "reading": reading}, "refusal", "HDPublicKey.traverse returns a key for a path with a hardened index")
+        else:
+            d = diff(obs_pub(tp), ref_pub(rn, vpub))
+            if d is None:
+                res.ok("pub: key of the decimal reading", ("q",) + key)
+            else:
+                res.violation(f"C08/badpaths/pub-wrong-key/{cl}/{d}", vc, {"path": s, "reading": reading}, "refusal or the key at the reading", "HDPublicKey.traverse returns a key that is not the one the components denote")
+        # the validator must not call an index outside [0, 2^32) or a foreign root valid ("//" and other
+        # not-an-integer forgiveness is not judged here: blindneg judges its consequences)
+        if cl in ("root-component", "negative-number", "marked-number>=2^31", "number>=2^32"):
+            if attempt(is_valid_bip32_path, s) is True:
+                res.violation(f"C08/badpaths/is_valid_bip32_path-accepts/{cl}", vc, {"path": s}, False, "is_valid_bip32_path accepts a string with an index outside [0, 2^32) / a foreign root component")
+            else:
+                res.ok("validator: refused")
+    return res
+
+
+# ---------------------------------------------------------------- E1 blindneg
+def gen_blindneg(tier, seed):
+    seeds = dict(seeds_for(tier, seed))
+    secrets = [[0], [1], [HARD - 1], []]
+    styles = [("m", "'"), ("M", "H")] if tier == "quick" else [("m", "'"), ("M", "H"), ("m", "h"), ("M", "mix")]
+    cases = []
+    for si, start in enumerate(STARTS):
+        vname = ["xpub", "tpub", "Zpub", "Vpub", "xpub"][si]
+        sn = ["r16", "r32", "r64", "f64", "z16"][si]
+        for p, m in styles:
+            honest = R.format_path(start, p, m)
+            claims = []  # (variant, claimed string)
+            for j in range(len(start)):
+                removed = R.format_path(start[:j] + start[j + 1 :], p, m)
+                claims.append(("component-removed", removed))
+                claims.append(("trailing-slash", removed + "/"))
+                # as many "/" as the xpub has levels, one component fewer
+                parts = removed.split("/")
+                for k in range(1, len(parts)):
+                    claims.append(("double-slash", "/".join(parts[:k]) + "//" + "/".join(parts[k:])))
+            for extra in ("0", "0" + (m if m != "mix" else "h"), str(HARD - 1)):
+                claims.append(("component-appended", honest + "/" + extra))
+            parts = honest.split("/")
+            for k in range(1, len(parts)):  # the honest path written with one doubled slash: refused, or the right answer
+                claims.append(("honest-double-slash", "/".join(parts[:k]) + "//" + "/".join(parts[k:])))
+            for variant, claimed in dict.fromkeys(claims):
+                for secret in secrets:
+                    cases.append({"sn": sn, "seed": seeds[sn].hex(), "version": vname, "start": start, "variant": variant, "claimed": claimed, "secret": secret})
+    seen, out = set(), []
+    for c in cases:
+        k = repr(sorted(c.items()))
+        if k not in seen:
+            seen.add(k)
+            out.append(c)
+    return out
+
+
+def run_blindneg(case):
+    """The xpub handed over really sits at `start`; the starting path handed over claims something else (or the same
+    thing with a doubled slash).  Refusal is always fine.  If a result comes back, it must be the key at start+secret AND
+    the path returned with it must read as start+secret: a path of another depth next to that key is a wrong answer."""
+    from buidl.blinding import blind_xpub
+
+    res = Res()
+    vc = {"engine": "blindneg", "case": case}
+    v = R.version_bytes(case["version"])
+    start, secret = case["start"], case["secret"]
+    rstart = R.derive_priv(R.master(bytes.fromhex(case["seed"])), start)
+    rfull = R.derive_priv(rstart, secret) if rstart else None
+    if rfull is None:
+        res.skip("reference: invalid key")
+        return res
+    xp = R.format_path(secret)
+    got = attempt(blind_xpub, rstart.ser(v, False), case["claimed"], xp)
+    key = (case["sn"], tuple(start), case["claimed"], xp)
+    if isinstance(got, Rejected) or not isinstance(got, dict):
+        res.ok("refused", key)
+        return res
+    gx, gp = got.get("blinded_child_xpub"), got.get("blinded_full_path")
+    reading = lenient_read(gp) if isinstance(gp, str) else None
+    parsed = R.parse_xkey(gx) if isinstance(gx, str) else None
+    obs = {"claimed_start_path": case["claimed"], "blinded_full_path": gp, "its_depth": len(reading) if reading is not None else None, "key_depth": parsed[1].depth if parsed else None}
+    if gx != rfull.ser(v, False):
+        res.violation(f"C08/blindneg/wrong-key/{case['variant']}", vc, obs, rfull.ser(v, False), "blind_xpub returns a key that is not the one at the secret path below the given xpub")
+    elif reading != start + secret:
+        res.violation(f"C08/blindneg/depth-mismatch-accepted/{case['variant']}", vc, obs, {"refusal or blinded_full_path": R.format_path(start + secret, "m", "h")}, "blind_xpub accepts a starting path whose depth is not the xpub's depth: the path it returns is not the path of the key it returns")
+    else:
+        res.ok("accepted with the right key and path", key)
+    return res
+
+
+# ---------------------------------------------------------------- E1 entry
+MNEMONICS = [
+    "abandon abandon abandon abandon abandon abandon abandon abandon abandon abandon abandon about",
+    "legal winner thank year wave sausage worth useful legal winner thank yellow",
+]
+BIG = HARD - 1
+
+
+def bip39_seed(mnemonic, password):
+    import hashlib
+
+    return hashlib.pbkdf2_hmac("sha512", mnemonic.encode(), b"mnemonic" + password, 2048, 64)
+
+
+def gen_entry(tier, seed):
+    cases = []
+    paths = [[], [0], [HARD], [HARD + 84, HARD, HARD, 0, 5], DEEP8[0]]
+    if tier == "thorough":
+        paths += [[i] for i in BOUNDARY[1:]] + [DEEP8[2], [HARD - 1, 2**32 - 1]]
+    for mi, mn in enumerate(MNEMONICS):
+        for pi, pw in enumerate(["", "TREZOR"]):
+            if tier == "quick" and mi != pi:
+                continue
+            for ni, net in enumerate(NETWORKS):
+                if tier == "quick" and ni != 2 * mi:  # quick: sentence 0 on mainnet, sentence 1 on signet
+                    continue
+                for path in paths:  # one case per path; quick: the depth-8 path in 3 notations only
+                    cases.append({"kind": "mnemonic", "m": mi, "pw": pw, "net": net, "paths": [path], "slip132": "zZuV"[ni], "styles": [["m", "h"], ["M", "mix"], ["M", "'"]] if tier == "quick" and len(path) == 8 else None})
+    purposes = ["44'", "49'", "84'", "86'"]
+    for pi, purpose in enumerate(purposes):
+        for ni, net in enumerate(NETWORKS):
+            if tier == "quick" and ni != pi:
+                continue
+            vals = [0, BIG] if tier == "quick" else [0, 1, BIG]
+            for a in vals:
+                cases.append({"kind": "getkey", "m": pi % 2, "net": net, "purpose": purpose, "account": a, "addresses": vals})
+    for ni, net in enumerate(NETWORKS):
+        rp = [[HARD + 48, HARD + (0 if net == "mainnet" else 1), HARD, HARD + 2], [HARD + 45], [0, HARD - 1, 2**32 - 1]]
+        cases.append({"kind": "record", "m": ni % 2, "net": net, "paths": rp if tier == "thorough" or ni % 2 == 0 else rp[:1]})
+    return cases
+
+
+def run_entry(case):
+    """Entry points that build a path (or take one) and hand it to traverse.  Seeds come from BIP39 (PBKDF2-HMAC-SHA512 of
+    the sentence, hashlib) on the reference side."""
+    from buidl.hd import HDPrivateKey
+
+    res = Res()
+    vc = {"engine": "entry", "case": case}
+    net = case["net"]
+    mn = MNEMONICS[case["m"]]
+    pw = case.get("pw", "").encode()
+    rroot = R.master(bip39_seed(mn, pw))
+    vprv, vpub = R.default_versions(net)
+    if case["kind"] == "mnemonic":
+        sl = case["slip132"]
+        for path in case["paths"]:
+            rn = R.derive_priv(rroot, path)
+            if rn is None:
+                res.skip("reference: invalid key")
+                continue
+            sts = styles_of(path)
+            if case.get("styles"):
+                allowed = {tuple(x) for x in case["styles"]}
+                sts = [x for x in sts if (x[0], x[1]) in allowed]
+            for j, (pfx, mk, s) in enumerate(sts):
+                o = attempt(HDPrivateKey.from_mnemonic, mn, password=pw, path=s, network=net)
+                if check(res, "C08/entry/from_mnemonic(path)", vc, obs_priv(o), ref_priv(rn, vprv, vpub), f"from_mnemonic(path={s!r}) is not the reference key at that path below the BIP39 seed", "from_mnemonic(path)==ref", ("mn", case["m"], case["pw"], net, s)):
+                    check_net(res, "C08/entry/from_mnemonic(path)/network", vc, o, net, "from_mnemonic network")
+            # the same with an explicit SLIP-132 pair, one notation
+            sprv, spub = R.version_bytes(sl + "prv"), R.version_bytes(sl + "pub")
+            if (R.NET_CLASS[net] == "main") == (sl in "xyzYZ"):
+                s = sts[-1][2]
+                o = attempt(HDPrivateKey.from_mnemonic, mn, password=pw, path=s, network=net, priv_version=sprv, pub_version=spub)
+                check(res, "C08/entry/from_mnemonic(path,versions)", vc, obs_priv(o), ref_priv(rn, sprv, spub), f"from_mnemonic(path={s!r}, versions {sl}) is not the reference key with those version bytes", "from_mnemonic(path,versions)==ref", ("mnv", case["m"], case["pw"], net, s))
+    elif case["kind"] == "getkey":
+        root = attempt(HDPrivateKey.from_mnemonic, mn, network=net)
+        purpose, a = case["purpose"], case["account"]
+        coin = 0 if net == "mainnet" else 1  # BIP44: coin type 0' on mainnet, 1' on every test network
+        racc = R.derive_priv(rroot, [HARD + int(purpose[:-1]), HARD + coin, HARD + a])
+        for ext in (True, False):
+            rch = R.ckd_priv(racc, 0 if ext else 1)
+            for n in case["addresses"]:
+                rn = R.ckd_priv(rch, n)
+                pk = attempt(lambda: root.get_private_key(purpose, account_num=a, is_external=ext, address_num=n))
+                got = attempt(lambda: (pk.secret, bytes(pk.point.sec())))
+                want = (rn.k, rn.sec())
+                if got == want:
+                    res.ok("get_private_key==ref", ("gk", net, purpose, a, ext, n))
+                else:
+                    res.violation("C08/entry/get_private_key", vc, {"external": ext, "address_num": n, "got": got}, want, f"get_private_key is not the reference key at m/{purpose}/{coin}'/{a}'/{0 if ext else 1}/{n}")
+    else:
+        root = attempt(HDPrivateKey.from_mnemonic, mn, network=net)
+        for path in case["paths"]:
+            rn = R.derive_priv(rroot, path)
+            for pfx, mk, s in styles_of(path) + [(None, None, None)]:
+                if s is None and path != case["paths"][0]:
+                    continue  # bip32_path=None: the default p2wsh path of the network (= case["paths"][0])
+                for flag in (False, True):
+                    rec = attempt(lambda: root.generate_p2wsh_key_record(bip32_path=s, use_slip132_version_byte=flag))
+                    wv = vpub if not flag else R.version_bytes("Zpub" if net == "mainnet" else "Vpub")
+                    ok = False
+                    if isinstance(rec, str) and rec.startswith("[") and "]" in rec:
+                        origin, xp = rec[1:].split("]", 1)
+                        fp, _, tail = origin.partition("/")
+                        ok = fp == rroot.fingerprint().hex() and R.parse_path("m/" + tail) == path and xp == rn.ser(wv, False)
+                    if ok:
+                        res.ok("key record == [root fingerprint/path]xpub at the path", ("rec", net, s, flag))
+                    else:
+                        res.violation("C08/entry/generate_p2wsh_key_record", vc, {"bip32_path": s, "slip132": flag, "record": rec if isinstance(rec, str) else repr(rec)}, f"[{rroot.fingerprint().hex()}/{R.format_path(path, 'm', 'h')[2:]}]{rn.ser(wv, False)}", "the key record does not name the root fingerprint, the path and the xpub found at that path")
     return res
 
 
@@ -842,6 +1305,42 @@ def engines(tier, seed):
             "(quick: depth 3 for two starts, depth 4 constant paths; thorough: all, alphabet + 2^31-2) x path notations of both arguments x all 10 public prefixes; "
             "result compared with the reference private derivation from the root along the concatenated path; secret paths with a hardened component must be refused. "
             "Non-trivial = one (start, secret path, notation) call",
+        ),
+        Engine(
+            "badpaths",
+            gen_badpaths,
+            run_badpaths,
+            kind="E1",
+            chunk=1,
+            rule="secp256k1. strings OUTSIDE the path grammar, none sampled: component = body x marker with 21 bodies {0,1,2^31-1,2^31,2^32-1,2^32,-1,-0,-2^31,+1,' 1','1 ',1_0,00,01,'',"
+            "arabic-indic 1,0x1,1.0,1e0,a} x 7 markers {none,',h,H,'',hh,'h}, placed as m/X, m/1'/X, m/X/0 and M/X (quick: M/X with markers {none,H} only; thorough: all 7 markers, and also m/0/X, m/X/1') (in-grammar results dropped), and 13 damaged root components "
+            "{mm,m0,m8,mx,M1,m',mh,'',' m','m ',n,x,1} x 5 tails; thorough adds m/X/Y over 23x23 components, damaged roots x 21 bodies and a second, non-root traversing key. "
+            "Oracle (never demands acceptance): each component is read as the decimal integer it denotes (Python int(): blanks, sign, '_', non-ASCII digits are noise), root must be m/M, "
+            "marked number < 2^31, unmarked < 2^32, not negative; HDPrivateKey.traverse is refused or returns the reference key at that reading, a string without a reading must be refused; "
+            "HDPublicKey.traverse likewise and refused whenever the reading has an index >= 2^31; is_valid_bip32_path must be False for a foreign root or an index outside [0,2^32). "
+            "Non-trivial = one (key, string, side) call",
+        ),
+        Engine(
+            "blindneg",
+            gen_blindneg,
+            run_blindneg,
+            kind="E1",
+            rule="the 5 starting xpubs of `blind` (depths 0..4) handed to blind_xpub with a starting path of ANOTHER depth: each single component removed, that string with a trailing '/', "
+            "that string with one '/' doubled at each position (as many '/' as the xpub has levels), 3 components appended (0, 0 hardened, 2^31-1); plus the honest path with one '/' doubled; "
+            "x notations (2 quick / 4 thorough) x secret paths {m/0, m/1, m/2^31-1, m}. Oracle: refused, or the returned key is the reference key at start+secret AND the returned path reads "
+            "(decimal reading as in badpaths) as start+secret. Non-trivial = one call",
+        ),
+        Engine(
+            "entry",
+            gen_entry,
+            run_entry,
+            kind="E1",
+            chunk=1,
+            rule="entry points that take or build a path. Reference seed = PBKDF2-HMAC-SHA512 (hashlib) of 2 published BIP39 sentences x passwords {'', TREZOR}. from_mnemonic(path=s) for 5 paths "
+            "(depth 0..8; 12 thorough) x every notation (quick: 3 notations for the depth-8 path) x networks (quick: sentence 0 with '' on mainnet, sentence 1 with TREZOR on signet; thorough: 2 x 2 x 4), once more with a SLIP-132 version pair == reference key at the path with the right "
+            "version bytes and network; get_private_key(purpose, account, external, address) for purposes 44',49',84',86' (one network each quick; 4 thorough) x account, address in {0,2^31-1} "
+            "(+1 thorough) x external/internal == reference key at m/purpose/coin'/account'/chain/address with coin 0 on mainnet else 1; generate_p2wsh_key_record for the default path and "
+            "given paths in every notation x both version choices == [root fingerprint/path]xpub of the reference. Non-trivial = one call",
         ),
     ]
     for t in toys:
